@@ -3,6 +3,7 @@
    under recover() and a watchdog: Ok value / Err (an error was returned) / Panic / OutOfFuel
    (no result within the deadline).  The model must predict the class and, when Ok, the value. *)
 From LR Require Export lib.Base lib.DecLib model.DecXBinary model.DecKV model.DecFields model.DecUtf8 model.DecUnquote model.DecWire model.DecPos model.Json model.Formatter model.DecTree model.DecLqlTime.
+From LR Require Export model.DecAdmin.
 
 Local Open Scope Z_scope.
 
@@ -50,6 +51,8 @@ Inductive case :=
 | KFmtEval (qt : list (bytes * bytes)) (fmt msg fields tl : bytes) (o : outcome bytes)
 | KEscape (s : bytes) (o : outcome bytes)
 | KLqlRel (s : bytes) (floatok : bool) (o : outcome unit)
+(* SHOW PARTITIONS OFFSET offset LIMIT limit on a server with n matching partitions: how many were listed *)
+| KShowParts (n : nat) (offset limit : Z) (o : outcome nat)
 | KOracleOnly (tag : nat).
 
 Definition check (c : case) : bool :=
@@ -85,6 +88,7 @@ Definition check (c : case) : bool :=
         (flds <- format_parse fmt ;; format_eval (qlookup qt) (fun _ _ => []) (fun _ _ => []) flds 0 msg fields tl []) o
   | KEscape s o => outcome_eqb bytes_eqb (escape_json s) o
   | KLqlRel s fok o => outcome_eqb unit_eqb (lql_rel_time (fun _ => fok) s) o
+  | KShowParts n offset limit o => outcome_eqb Nat.eqb (parts_page code_guards_paging n offset limit) o
   | KOracleOnly _ => true
   end.
 
